@@ -167,6 +167,7 @@ Section FortranFrameWrapper.
     destruct (max_iter o <? min_iter o); [exact Same|].
     destruct (w_ec (errors o)) as [ec|]; [|exact Same]. rewrite Hp.
     assert (Hlt : (p < length (status s))%nat) by (apply py_pos_inv in Hp; lia).
+    destruct (negb (feasible d (length (status s)) p)); [exact Same|].
     match goal with |- context [match ?pre with inl _ => _ | inr _ => _ end] => destruct pre as [v0|e] eqn:Epre end; [|exact Same].
     assert (Hv0 : agree_outside WW (vals_of s) v0).
     { destruct (offset o =? 0); [inversion Epre; subst; apply agree_refl|].
@@ -199,7 +200,8 @@ Section FortranFrameWrapper.
     { cbn [fst stampz vals_of log]. split; [exact Hr|]. split; [apply stampz_sf|reflexivity]. }
     destruct ((fo_code r =? w_t_skip) && is_skip (errors o)).
     { cbn [fst stampz vals_of log]. split; [exact Hr|]. split; [apply stampz_sf|reflexivity]. }
-    cbn [fst setvals vals_of log]. split; [exact Hr|]. split; [apply setvals_sf|reflexivity].
+    destruct (existsb (Z.eqb (fo_code r)) w_t_index);
+      cbn [fst setvals vals_of log]; (split; [exact Hr|]); (split; [apply setvals_sf|reflexivity]).
   Qed.
 End FortranFrameWrapper.
 
@@ -313,7 +315,7 @@ Section FortranSolveFrame.
     set (o := t_solve_t fm v t mi ma tl off cv ec) in *.
     assert (A' : agree_outside (WFs (t :: r)) v (fo_vals o)).
     { eapply agree_mono; [|exact A]. intros i j H. exists t. split; [left; reflexivity|exact H]. }
-    destruct (if fo_code o =? 0 then negb (fo_conv o) && (fc =? c_fail_raise) else ec =? c_ec_raise); cbn [fst]; [exact A'|].
+    match goal with |- context [if ?stop then (fo_vals o, _) else _] => destruct stop end; cbn [fst]; [exact A'|].
     assert (Hs' : shape (fo_vals o) = sh) by (destruct A as [S _]; congruence).
     specialize (IH (fo_vals o) (fun idx H => Hin idx (or_intror H)) Hs').
     destruct (t_solve_loop fm (fo_vals o) r mi ma tl off cv fc ec) as [v' l]. cbn [fst] in *.
@@ -358,7 +360,8 @@ Section FortranSolveFrame.
     destruct ((c =? w_s_raise) && is_raise (errors o)); [apply Stamp|].
     destruct ((c =? w_s_pre) && is_raise (errors o)); [exact Same|].
     destruct (c =? w_s_offpre); [exact Same|]. destruct (c =? w_s_offpost); [exact Same|].
-    destruct ((c =? w_s_skip) && is_skip (errors o)); [apply Step|exact Same].
+    destruct ((c =? w_s_skip) && is_skip (errors o)); [apply Step|].
+    destruct (existsb (Z.eqb c) w_s_index); exact Same.
   Qed.
 
   (* THE FRAME THEOREM OF FortranEngine.solve(): over the positions ps (all inside the span) the call changes values
